@@ -245,6 +245,16 @@ def decorate(behs, rnd, params):
             b = [dict(e, minconf=rnd.choice([0, 1, 1, 2, 4])) if e.get("ev") == "refresh" and "minconf" not in e else e for e in b]
             behs3.append(b)
         behs = behs3
+    # ... and somebody holding the rewind hash of a wallet's seed looks at the chain (view wallet: reads only)
+    vshare = params.get("view_share", 0.25)
+    behs4 = []
+    for b in behs:
+        if b and rnd.random() < vshare:
+            lo = 1 if b[0].get("ev") == "setup" else 0
+            pos = rnd.randrange(lo, len(b) + 1)
+            b = list(b[:pos]) + [{"ev": "view_scan", "w": rnd.choice(["w1", "w2"]), "start": 1}] + list(b[pos:])
+        behs4.append(b)
+    behs = behs4
     for b in behs:
         if not b or rnd.random() >= share:
             out.append(b)
